@@ -53,8 +53,15 @@ def shipped_overlay_classes():
             continue
         try:
             importlib.import_module(m.name)
-        except Exception:  # optional dependencies of unrelated modules (REST, scripts)
+        except ImportError as e:
+            # only a missing THIRD-PARTY dependency of an unrelated module (REST API, scripts) may be skipped; an import
+            # error inside the ipv8 package itself would silently drop an overlay from the table
+            missing = getattr(e, "name", "") or ""
+            if missing.startswith("ipv8") or not missing:
+                raise TranslatorError(f"cannot import shipped module {m.name}: {e}") from e
             continue
+        except Exception as e:
+            raise TranslatorError(f"cannot import shipped module {m.name}: {type(e).__name__}: {e}") from e
 
     def subs(c):
         out = set()
@@ -285,7 +292,7 @@ LOOKUP = "peer = self.network.verified_by_public_key_bin.get(auth.public_key_bin
 def _ops_of(stmts, payload_var: str, where: str) -> list[str]:
     ops = []
     for st in stmts:
-        s = _norm(st)
+        s = _norm(st).replace(", data, 23)", ", data, offset=23)").replace(", remainder, 23)", ", remainder, offset=23)")
         if s == UNPACK_AUTH:
             ops.append(".unpackAuth 23")
         elif s == VERIFY:
@@ -324,7 +331,9 @@ def _ops_of(stmts, payload_var: str, where: str) -> list[str]:
                     raise TranslatorError(f"{where}: unsupported alternative in the peer lookup: {alt[:100]}")
         elif isinstance(st, ast.If) and _norm(st.test) == "peer" and not st.orelse and len(st.body) == 1 \
                 and _norm(st.body[0]) == "peer.add_address(source_address)":
-            pass  # address bookkeeping on the already-known peer; no effect on identity
+            ops.append(".touchPeer")    # mutates the STORED verified Peer: must not happen before the signature check
+        elif isinstance(st, ast.Expr) and isinstance(st.value, ast.Call) and _norm(st.value.func).startswith("self.logger."):
+            pass  # logging only
         elif s == "output = [*unpacked, data]":
             ops.append(".appendData")
         elif s == "return func(self, peer or Peer(auth.public_key_bin, source_address), *unpacked)":
@@ -561,16 +570,20 @@ def translate(tables=None):
         f"def strictVarlen : Bool := {'true' if probe_varlen_strict() else 'false'}", "",
     ]
     rows = []
+    reviewed_raw = {(o, int(m)) for o, ms in spec.get("raw_modelled", {}).items() for m in ms}
     for t in tables:
         hs = []
         for h in t["handlers"]:
-            hs.append(f"    {{ msgId := {h['msg_id']}, name := {_lean_str(h['name'])}, kind := .{h['kind']}, "
+            lean_kind = h["kind"]
+            if lean_kind == "raw" and (t["overlay"], h["msg_id"]) not in reviewed_raw:
+                lean_kind = "rawOther"
+            hs.append(f"    {{ msgId := {h['msg_id']}, name := {_lean_str(h['name'])}, kind := .{lean_kind}, "
                       f"payloads := [{', '.join(_lean_str(p) for p in h['payloads'])}] }}")
         rows.append(f"  {{ name := {_lean_str(t['overlay'])}, pfx := {_lean_bytes(t['prefix'])}, handlers := [\n"
                     + ",\n".join(hs) + "] }")
     parts.append("/-- the wrapper programs in force -/")
     parts.append("def progs : Progs :=\n  { signed := lazyWrapper, signedWd := lazyWrapperWd, unsigned := lazyWrapperUnsigned,\n"
-                 "    unsignedWd := lazyWrapperUnsignedWd, ezUnpackAuth := ezUnpackAuth }")
+                 "    unsignedWd := lazyWrapperUnsignedWd, ezUnpackAuth := ezUnpackAuth, rawCatches := discRawCatchesDecodeErrors }")
     parts.append("")
     parts.append("/-- every Community subclass shipped outside ipv8.test, every registered msg id (from the live decode_map) -/")
     parts.append("def overlays : List Overlay := [\n" + ",\n".join(rows) + "]")
